@@ -11,6 +11,9 @@ sys.path.insert(0, os.path.dirname(os.path.abspath(__file__)))
 import common as C  # noqa: E402
 
 
+DUMMY_OPS = {"power_comb 1", "power_comb 0", "check_region [ 0 1 0 1 ]", "splinecv_select [ [ 0 ] ]"}
+
+
 def load_known(prop):
     path = os.path.join(C.VERIF, "known_findings.json")
     if not os.path.exists(path):
@@ -212,7 +215,11 @@ def check(P, prop, tier, seed, t0):
         elif r["cmp"].startswith("diff"):
             mismatches.append(r)
         if r["nontrivial"] and not r["oracle"] and not r["cmp"].startswith("diff"):
-            distinct.add(r["case"]["op"])
+            c_ = r["case"]
+            key_ = c_.get("key")
+            if key_ is None and c_["op"] in DUMMY_OPS:      # oracle-only cases share a placeholder op line
+                key_ = repr(c_.get("args"))
+            distinct.add(c_["op"] if key_ is None else c_["op"] + "#" + str(key_))
 
     lines = []
     exit_code = 0
